@@ -18,6 +18,7 @@ package c18
 import (
 	"context"
 	"fmt"
+	"os"
 	"sort"
 	"strings"
 	"sync"
@@ -30,7 +31,13 @@ import (
 	"verifharness/sx"
 )
 
-const ceiling = 90 * time.Second // harness deadline of any single wait: reaching it is INCONCLUSIVE, never a verdict
+// harness deadline of any single wait: reaching it is INCONCLUSIVE, never a verdict (C18_CEILING overrides, for debugging)
+var ceiling = func() time.Duration {
+	if d, err := time.ParseDuration(os.Getenv("C18_CEILING")); err == nil && d > 0 {
+		return d
+	}
+	return 45 * time.Second
+}()
 
 var points = []string{"launching", "configuring", "configured", "starting", "running", "stopping", "standby", "teardown", "destroyed"}
 
@@ -61,6 +68,7 @@ func parseScenario(in string) (*scenario, error) {
 		return nil, fmt.Errorf("scenario: K out of range")
 	}
 	envs := 0
+	var pts []string
 	for _, a := range n.At(2).List {
 		if !a.IsList || a.Len() < 1 {
 			return nil, fmt.Errorf("scenario: bad action")
@@ -79,6 +87,7 @@ func parseScenario(in string) (*scenario, error) {
 				return nil, fmt.Errorf("scenario: bad point %q", act.arg)
 			}
 			envs++
+			pts = append(pts, act.arg)
 		case "kill", "term":
 		case "drop":
 			if act.arg != "clean" && act.arg != "abrupt" {
@@ -88,6 +97,11 @@ func parseScenario(in string) (*scenario, error) {
 			var i int
 			if _, e := fmt.Sscanf(act.arg, "%d", &i); e != nil || i < 0 || i >= envs {
 				return nil, fmt.Errorf("scenario: destroy of an environment not created before")
+			}
+			// an environment with an operation in flight refuses the request or makes it wait for the core's
+			// 90 s command timeout: nothing to learn for this property
+			if p := pts[i]; p != "configured" && p != "running" && p != "standby" {
+				return nil, fmt.Errorf("scenario: destroy of an environment at point %s", p)
 			}
 		default:
 			return nil, fmt.Errorf("scenario: unknown action %q", act.kind)
@@ -131,11 +145,17 @@ command:
 
 func workflowYAML(k int) string {
 	var b strings.Builder
-	b.WriteString("name: c18wf\ndefaults:\n  deploy_timeout: 60s\nroles:\n")
+	b.WriteString("name: c18wf\ndefaults:\n  deploy_timeout: 25s\nroles:\n")
 	for i := 0; i < k; i++ {
 		fmt.Fprintf(&b, "  - name: \"r%d\"\n    constraints:\n      - attribute: machine_id\n        value: \"host%d\"\n    task:\n      load: c18t%d\n", i, i%2+1, i)
 	}
 	return b.String()
+}
+
+// how often the mesos-go lost-disconnect race was hit in this process (reported, never a verdict)
+var stuck struct {
+	sync.Mutex
+	n int
 }
 
 type marker struct {
@@ -346,8 +366,21 @@ func (r *runner) awaitLaunched() (string, error) {
 	return id, err
 }
 
-func (r *runner) held(g string) error {
-	return sim.Poll("an operation is parked at gate "+g, ceiling, func() (bool, error) { return r.w.Master.Held(g) >= 1, nil })
+// held waits until a reaction is parked at gate g; if the operation that should run into the gate
+// returns first, waiting longer is pointless.
+func (r *runner) held(e *envRec) error {
+	return sim.Poll("an operation is parked at gate "+e.gate, ceiling, func() (bool, error) {
+		if r.w.Master.Held(e.gate) >= 1 {
+			return true, nil
+		}
+		select {
+		case err := <-e.pending:
+			e.pending <- err
+			return false, infraf("the operation meant to be held at gate %s returned before reaching it: %v", e.gate, err)
+		default:
+			return false, nil
+		}
+	})
 }
 
 // bring creates environment number len(r.envs) and takes it to `point`.
@@ -403,7 +436,7 @@ func (r *runner) bring(point string) error {
 		}
 		e.id = id
 		r.seenEnv[id] = true
-		return r.held(e.gate)
+		return r.held(e)
 	case "configured":
 		return syncNew()
 	case "starting":
@@ -415,7 +448,7 @@ func (r *runner) bring(point string) error {
 			_, err := r.control(ctx, e.id, pb.ControlEnvironmentRequest_START_ACTIVITY)
 			return err
 		})
-		return r.held(e.gate)
+		return r.held(e)
 	case "running", "stopping":
 		if err := syncNew(); err != nil {
 			return err
@@ -431,7 +464,7 @@ func (r *runner) bring(point string) error {
 			_, err := r.control(ctx, e.id, pb.ControlEnvironmentRequest_STOP_ACTIVITY)
 			return err
 		})
-		return r.held(e.gate)
+		return r.held(e)
 	case "standby", "teardown", "destroyed":
 		if err := syncNew(); err != nil {
 			return err
@@ -449,7 +482,7 @@ func (r *runner) bring(point string) error {
 				_, err := r.w.Client().DestroyEnvironment(ctx, &pb.DestroyEnvironmentRequest{Id: e.id})
 				return err
 			})
-			return r.held(e.gate)
+			return r.held(e)
 		}
 		return r.destroy(e)
 	}
@@ -523,15 +556,30 @@ func (r *runner) drop(abrupt bool) error {
 	if err := r.quiet(1, "pre"); err != nil {
 		return err
 	}
+	// The barrier's KILL is recorded by the master before its HTTP answer reaches the core. A subscription
+	// that ends while a call is in flight trips a race in mesos-go's httpsched (the in-flight call re-installs
+	// the "connected" phase over the "disconnected" one; every later SUBSCRIBE is refused locally with
+	// "already subscribed" and the core stays deaf for ever). That is a defect of its own (notes/C18.md), but
+	// not the subject here: give the answer time to arrive, and recognise the stuck client instead of
+	// waiting for the ceiling.
+	time.Sleep(150 * time.Millisecond)
 	n := r.lastSeq()
+	logPath := r.w.CoreLog()
 	r.w.DropStream(abrupt)
-	if err := r.w.Master.Wait("the core re-subscribes after the dropped stream", ceiling, func(v *sim.View) bool {
-		for j := len(v.Trace) - 1; j >= 0 && v.Trace[j].Seq > n; j-- {
-			if v.Trace[j].Type == "SUBSCRIBED" {
-				return true
+	if err := sim.Poll("the core re-subscribes after the dropped stream", ceiling, func() (bool, error) {
+		tr := r.w.Trace()
+		for j := len(tr) - 1; j >= 0 && tr[j].Seq > n; j-- {
+			if tr[j].Type == "SUBSCRIBED" {
+				return true, nil
 			}
 		}
-		return false
+		if b, e := os.ReadFile(logPath); e == nil && strings.Contains(string(b), "already subscribed, cannot re-issue a SUBSCRIBE call") {
+			stuck.Lock()
+			stuck.n++
+			stuck.Unlock()
+			return false, infraf("the core's mesos-go client lost the disconnect (\"already subscribed, cannot re-issue a SUBSCRIBE call\"): it never re-subscribes")
+		}
+		return false, nil
 	}); err != nil {
 		return err
 	}
@@ -561,6 +609,11 @@ func runScenario(sc *scenario, verbose bool) (string, error) {
 	if err = w.SetWorkflow("c18wf", workflowYAML(sc.k)); err != nil {
 		return "", &sim.InfraError{What: "workflow", Err: err}
 	}
+	// A simulated task reports TASK_RUNNING the instant it is launched; the core appends launched tasks to
+	// its roster only after the ACCEPT calls of the offer round returned, and an update handled before that
+	// is dropped ("attempted status update of task not in roster") — the deployment then times out. Real
+	// tasks take far longer to start than that window: so do these.
+	w.SetOutcome(sim.Selector{}, sim.EvLaunch, sim.Outcome{Kind: sim.OK, Delay: 120 * time.Millisecond})
 	for _, a := range sc.acts {
 		switch a.kind {
 		case "env":
@@ -581,6 +634,18 @@ func runScenario(sc *scenario, verbose bool) (string, error) {
 			}
 		}
 		if err != nil {
+			if os.Getenv("C18_VERBOSE") != "" {
+				if b, e := os.ReadFile(w.CoreLog()); e == nil {
+					ls := strings.Split(string(b), "\n")
+					if len(ls) > 60 {
+						ls = ls[len(ls)-60:]
+					}
+					fmt.Fprintf(os.Stderr, "---- core log tail (%s)\n%s\n", sc, strings.Join(ls, "\n"))
+				}
+				for _, t := range w.Trace() {
+					fmt.Fprintln(os.Stderr, "   ", t.String())
+				}
+			}
 			if sim.IsInfra(err) {
 				return "", fmt.Errorf("%s: action (%s %s): %w", sc, a.kind, a.arg, err)
 			}
